@@ -170,7 +170,7 @@ DerCases ==
   \cup { << "derint", w, 2, lf, ck, vi >> : w \in {1, 2}, lf \in 2..NForms, ck \in { 1, 2, 3, 5, 8, 9 }, vi \in (IF Thorough THEN 1..NVals ELSE FewVals) }
   \cup { << "derboth", ck1, v1, ck2, v2 >> : ck1 \in 1..NKinds, ck2 \in 1..NKinds, v1 \in { 2, 4, 10, 11, 13 }, v2 \in { 2, 4, 10, 11, 13 } }
   \cup { << "derlong", w, ck, slf, ilf >> : w \in {1, 2}, ck \in { 100 + k : k \in LongKs } \cup { 1000 + k : k \in LongKs },
-                                             slf \in { 1, 4, 5, 12 }, ilf \in { 1, 4, 5, 12 } }
+                                             slf \in { 1, 4, 5, 8, 9, 10, 12 }, ilf \in { 1, 4, 5, 8, 9, 10, 12 } }
   \cup { << "dertrunc", k, n >> : k \in 1..Len(C3Bases), n \in 0..74 }
   \cup { << "dermut", k, pos, how >> : k \in (IF Thorough THEN 1..6 ELSE { 2, 3, 4 }), pos \in 1..72, how \in 1..6 }
   \cup { << "derprev", st, vi >> : st \in { 48, 49 }, vi \in { 2, 10, 11 } }
